@@ -729,6 +729,8 @@ func runC08Loads(ctx *core.Ctx) {
 	runC08Names(ctx)
 	runC08Typed(ctx)
 	runC08Meta(ctx)
+	runC08Whole(ctx)
+	runC08OnOff(ctx)
 }
 
 func init() {
